@@ -3592,7 +3592,11 @@ class TextWrappingSerializer(PrettySerializer):
     @property
     def _line_offset(self) -> int:
         if self.writer.offset:
-            return self.writer.offset - self._level * len(self.indentation)
+            # the writer counts from the last newline, which may be part of the
+            # indentation
+            return self.writer.offset - len(
+                (self._level * self.indentation).rpartition("\n")[2]
+            )
         else:
             return 0
 
